@@ -7,6 +7,7 @@ import (
 	"fmt"
 	"math/rand/v2"
 	"net/url"
+	"slices"
 	"sort"
 	"strings"
 	"testing"
@@ -247,6 +248,7 @@ func c04Run(t *testing.T, run *Run, sc c04Scenario, rng *rand.Rand) {
 	run.Eval()
 	var mats [3]map[string]string
 	var stateDir string
+	grabbed := false
 	fail := func(w *World, sig, format string, a ...any) {
 		run.Violate(sig, fmt.Sprintf(format, a...), sc, func() []string { return w.Trace(60) })
 	}
@@ -284,7 +286,7 @@ func c04Run(t *testing.T, run *Run, sc c04Scenario, rng *rand.Rand) {
 				cur[name] = c04Service{Name: name, Hosts: h, Prefixes: p}
 			}
 			warm := func() {
-				if b != 1 || bad {
+				if b != 1 || bad || grabbed {
 					return
 				}
 				var now []c04Service
@@ -387,7 +389,56 @@ func c04Run(t *testing.T, run *Run, sc c04Scenario, rng *rand.Rand) {
 				installed(s.Name, s.Hosts, s.RawPfx)
 				warm()
 			}
-			if b == 1 {
+			// second build: one service then asks for a pair that another service owns, next to pairs
+			// of its own on the same host. Whether that is refused is not this property's business
+			// (refused: nothing changed; accepted: the table is no longer one this reference speaks
+			// about, judged below by history-independence alone). What is: the same set of services
+			// reached through more commands (a bystander deployed and removed, four times) routes
+			// every request exactly as before.
+			if b == 1 && !bad {
+			grab:
+				for _, i := range rng.Perm(len(sc.Services)) {
+					a := sc.Services[i]
+					for _, j := range rng.Perm(len(sc.Services)) {
+						o := sc.Services[j]
+						if i == j || !slices.ContainsFunc(a.Hosts, func(h string) bool { return slices.Contains(o.Hosts, h) }) {
+							continue
+						}
+						for _, p := range o.Prefixes {
+							if slices.Contains(a.Prefixes, p) {
+								continue
+							}
+							run.Count("grab_attempts", 1)
+							if e := c04Deploy(w, a, a.Hosts, append(append([]string{}, a.RawPfx...), p)); e == "" {
+								run.Count("grab_attempts_accepted", 1)
+								grabbed = true
+							}
+							before := c04Matrix(w, "g0-")
+							for k := 0; k < 4 && !bad; k++ {
+								by := c04Service{Name: fmt.Sprintf("bystander%d", k), Hosts: []string{fmt.Sprintf("by%d.example", k)}, Prefixes: []string{"/"}}
+								w.AddTarget("svc-"+by.Name+":80", nil)
+								if e := c04Deploy(w, by, by.Hosts, by.Prefixes); e != "" {
+									fail(w, "deploy-failed", "deploy of a bystander service failed: %s", e)
+									bad = true
+									break
+								}
+								w.Remove(by.Name)
+								after := c04Matrix(w, fmt.Sprintf("g%d-", k+1))
+								for key, v := range before {
+									if after[key] != v {
+										hp := strings.SplitN(key, " ", 2)
+										fail(w, "route-changed:same-services-more-commands", "Host %q path %q was answered by %q, and by %q after a bystander service on another host was deployed and removed again (%d times): same services, same bindings, different choice", hp[0], hp[1], v, after[key], k+1)
+										bad = true
+										break
+									}
+								}
+							}
+							break grab
+						}
+					}
+				}
+			}
+			if b == 1 && !bad {
 				for k := 3; k < 5; k++ {
 					ghost(k)
 				}
@@ -428,6 +479,9 @@ func c04Run(t *testing.T, run *Run, sc c04Scenario, rng *rand.Rand) {
 		hp := strings.SplitN(k, " ", 2)
 		want := refRoute(sc.Services, hp[0], hp[1])
 		for b, name := range []string{"random-order", "moved-bindings", "restored"} {
+			if b == 1 && grabbed {
+				continue
+			}
 			if got := mats[b][k]; got != want {
 				run.Violate("route-mismatch:"+name, fmt.Sprintf("table built by %s: Host %q path %q was answered by %q, the statement selects %q", name, hp[0], hp[1], got, want), sc, nil)
 				return
